@@ -205,6 +205,9 @@ func runC01(c *report.Ctx) {
 
 	ruleUnspentValueProvenance(c)
 	ruleNoSwallowedErrorInUpdate(c, 13)
+	ruleDecoderTotality(c)
+	ruleInBlockParentFirst(c)
+	ruleRollbackReverseOrder(c)
 
 	// ---- schema (shared with C09) -------------------------------------------------
 	ruleSchema(c, []string{"nsUnspent", "nsCredits", "nsDebits", "nsMinedBalance", "nsTxRecords", "nsBlocks", "nsUnmined", "nsUnminedInputs", "nsUnminedCredits", "nsAddresses", "nsGameHistory", "nsUnminedGameHistory"}, 40, 20)
